@@ -56,7 +56,13 @@ pub struct Binder<'a> {
     /// Table aliases in scope
     table_aliases: HashMap<String, String>,
     /// CTE definitions (WITH clauses)
-    ctes: HashMap<String, Arc<LogicalPlan>>,
+    /// WITH names visible at the point being bound -> (plan, identity of that
+    /// definition). The identity (`name#n`) becomes `SubqueryAlias.cte_name`: the
+    /// physical planner shares one materialization among the references to ONE
+    /// definition, and two definitions that happen to share a name stay apart.
+    ctes: HashMap<String, (Arc<LogicalPlan>, String)>,
+    /// Number of CTE definitions bound so far (source of the identities).
+    cte_defs: usize,
     /// Outer scope columns for correlated subqueries (name -> (type, relation))
     #[allow(dead_code)] // Reserved for correlated subquery type checking
     outer_scope: HashMap<String, (ArrowDataType, Option<String>)>,
@@ -129,6 +135,7 @@ impl<'a> Binder<'a> {
             aliases: HashMap::new(),
             table_aliases: HashMap::new(),
             ctes: HashMap::new(),
+            cte_defs: 0,
             outer_scope: HashMap::new(),
             named_windows: HashMap::new(),
             allow_window: false,
@@ -140,13 +147,14 @@ impl<'a> Binder<'a> {
     fn with_outer_scope(
         catalog: &'a dyn Catalog,
         outer_scope: HashMap<String, (ArrowDataType, Option<String>)>,
-        ctes: HashMap<String, Arc<LogicalPlan>>,
+        ctes: HashMap<String, (Arc<LogicalPlan>, String)>,
     ) -> Self {
         Self {
             catalog,
             aliases: HashMap::new(),
             table_aliases: HashMap::new(),
             ctes,
+            cte_defs: 0,
             outer_scope,
             named_windows: HashMap::new(),
             allow_window: false,
@@ -186,6 +194,19 @@ impl<'a> Binder<'a> {
     }
 
     fn bind_query(&mut self, query: &ast::Query) -> Result<LogicalPlan> {
+        // A WITH clause is in scope for THIS query only: restore the enclosing
+        // scope's names afterwards, so a nested `WITH c` neither overrides an
+        // outer `c` for later references nor leaks to sibling queries.
+        if query.with.is_none() {
+            return self.bind_query_scoped(query);
+        }
+        let saved_ctes = self.ctes.clone();
+        let plan = self.bind_query_scoped(query);
+        self.ctes = saved_ctes;
+        plan
+    }
+
+    fn bind_query_scoped(&mut self, query: &ast::Query) -> Result<LogicalPlan> {
         // Process CTEs (WITH clause) first
         if let Some(ref with_clause) = query.with {
             self.bind_ctes(with_clause)?;
@@ -291,8 +312,11 @@ impl<'a> Binder<'a> {
             let alias_name = cte.alias.name.value.clone();
             let cte_plan = self.bind_query(&cte.query)?;
 
-            // Store the CTE with its alias
-            self.ctes.insert(alias_name.clone(), Arc::new(cte_plan));
+            // Store the CTE with its alias and a per-definition identity
+            self.cte_defs += 1;
+            let identity = format!("{}#{}", alias_name, self.cte_defs);
+            self.ctes
+                .insert(alias_name.clone(), (Arc::new(cte_plan), identity));
         }
         Ok(())
     }
@@ -1154,7 +1178,7 @@ impl<'a> Binder<'a> {
                     .insert(alias_name.clone(), table_name.clone());
 
                 // Check if this is a CTE reference first
-                if let Some(cte_plan) = self.ctes.get(&table_name) {
+                if let Some((cte_plan, cte_identity)) = self.ctes.get(&table_name) {
                     // CTEs are full logical plans, clone and apply alias
                     let schema = cte_plan.schema();
                     let aliased_schema = PlanSchema::new(
@@ -1169,7 +1193,7 @@ impl<'a> Binder<'a> {
                         input: Arc::clone(cte_plan),
                         alias: alias_name.clone(),
                         schema: aliased_schema,
-                        cte_name: Some(table_name.clone()),
+                        cte_name: Some(cte_identity.clone()),
                     }));
                 }
 
